@@ -36,6 +36,9 @@ def gen_cases(tier, seed):
         if i % 6 == 1:
             fam = 'alias'
         yield {'family': fam, 'idx': i, 'seed': seed}
+    # one step OBJECT at two positions of the sequence (check = validate(); Flow(data, check, double, check))
+    for i in range({'quick': 16, 'thorough': 160}[tier]):
+        yield {'family': 'repeated_step', 'idx': 2 * 10 ** 6 + i, 'seed': seed}
     # the same rejection of alien links with assertions disabled (python -O)
     yield {'family': 'alien_optimized', 'idx': 10 ** 6, 'seed': seed}
 
@@ -119,11 +122,25 @@ def strip_late(desc):
     return desc
 
 
-def materialise(ds):
+class Outcome(tuple):
+    """(descriptor without the late-filled counters, rows) + .late = those counters per resource"""
+    late = None
+
+
+def outcome(desc, rows):
+    o = Outcome((strip_late(desc), rows))
+    o.late = {r.get('name'): {k: r[k] for k in LATE_KEYS if k in r} for r in desc.get('resources', [])}
+    o.late[None] = {k: desc[k] for k in LATE_KEYS if k in desc}
+    return o
+
+
+def materialise(ds, keep_late=False):
     import json
     rows = [list(r) for r in ds.res_iter]
     # a descriptor is a JSON document: the round trip also breaks any aliasing between its parts (two resources
     # sharing one field dict survive copy.deepcopy as shared objects)
+    if keep_late:
+        return json.loads(json.dumps(ds.dp.descriptor)), rows
     return json.loads(json.dumps(strip_late(ds.dp.descriptor))), rows
 
 
@@ -162,9 +179,10 @@ def run_stepwise(builders):
                                        for res, r in zip(pkg.resources, rows)], [])
         with boot.quiet():
             ds_out = d.Flow(step).datastream(ds_in)
-            desc, rows = materialise(ds_out)
+            # "the fully materialised output of the previous step": what a dumper recorded is part of it
+            desc, rows = materialise(ds_out, keep_late=True)
         first = False
-    return desc, rows
+    return outcome(desc, rows)
 
 
 def diff(a, b):
@@ -189,16 +207,28 @@ def diff(a, b):
     return None
 
 
-def observers_diff(e1, e2):
+def observers_diff(e1, e2, ignore_late=False):
     """What dumpers / stream / printer persisted must not depend on the evaluation strategy."""
     import json
     import os
+
+    def stream_text(t):
+        if not ignore_late:
+            return t
+        head, _, rest = t.partition('\n')
+        try:
+            return json.dumps(strip_late(json.loads(head)), sort_keys=True) + '\n' + rest
+        except Exception:
+            return t
     for d1, d2 in zip(e1.dump_dirs, e2.dump_dirs):
         try:
             j1 = json.load(open(os.path.join(d1, 'datapackage.json')))
             j2 = json.load(open(os.path.join(d2, 'datapackage.json')))
         except Exception as e:
             return 'dump descriptor unreadable: %s' % e
+        if ignore_late:
+            # (a dumper overwrites the counters with its own: only what it inherited from an earlier dumper can differ)
+            j1, j2 = strip_late(j1), strip_late(j2)
         if j1 != j2:
             for a, b in zip(j1.get('resources', []), j2.get('resources', [])):
                 if a != b:
@@ -217,11 +247,14 @@ def observers_diff(e1, e2):
                 return 'zip members differ: %r vs %r' % (a.namelist(), b.namelist())
             for n in a.namelist():
                 if a.read(n) != b.read(n):
+                    if ignore_late and n == 'datapackage.json' and \
+                            strip_late(json.loads(a.read(n))) == strip_late(json.loads(b.read(n))):
+                        continue
                     return 'zip member %s differs' % n
         except Exception as e:
             return 'zip unreadable: %s' % e
     for k in e1.streams:
-        if k in e2.streams and e1.streams[k].getvalue() != e2.streams[k].getvalue():
+        if k in e2.streams and stream_text(e1.streams[k].getvalue()) != stream_text(e2.streams[k].getvalue()):
             return 'stream %s text differs' % k
     for k in e1.printers:
         if k in e2.printers and e1.printers[k] != e2.printers[k]:
@@ -243,9 +276,74 @@ def groupings(rng, n):
     return out
 
 
+def _keep_small(row):
+    return row['n'] is None or row['n'] < 10 ** 9
+
+
+REPEATABLE = {
+    'validate': lambda d: d.validate(),
+    'set_type': lambda d: d.set_type('n', type='integer'),
+    'sort_rows': lambda d: d.sort_rows('{id}'),
+    'filter_rows': lambda d: d.filter_rows(condition=_keep_small),
+    'find_replace': lambda d: d.find_replace([{'name': 's', 'patterns': [{'find': 'zzz+', 'replace': 'z'}]}]),
+    'set_primary_key': lambda d: d.set_primary_key(['id']),
+    'update_resource': lambda d: d.update_resource(None, title='T'),
+    'update_package': lambda d: d.update_package(title='P'),
+    'printer': lambda d: d.printer(header_print=lambda *a, **k: None, table_print=lambda *a, **k: None),
+}
+
+
+def run_repeated_step(case):
+    rng = boot.rng(case['seed'], 'C01', 'repeated', case['idx'])
+    d = lab.df()
+    counters = {'strategies_compared': 0, 'stepwise_runs': 0, 'links_rejected': 0}
+    viol = []
+    op = sorted(REPEATABLE)[case['idx'] % len(REPEATABLE)]
+    tables = dsl.initial_tables(rng, nres=rng.choice([1, 2]), sizes=(1, 3, 101))
+    middle = rng.choice(['row_function', 'other_step', 'nothing'])
+
+    def mid():
+        if middle == 'row_function':
+            return [dsl.make_callable('u_bump_n', 'function')]
+        if middle == 'other_step':
+            return [d.update_package(note='x')]
+        return []
+
+    def run(shared):
+        first = REPEATABLE[op](d)
+        second = first if shared else REPEATABLE[op](d)
+        steps = [dsl.build_source(t) for t in tables] + [first] + mid() + [second]
+        with boot.quiet():
+            results, dp, _ = d.Flow(*steps).results(on_error=None)
+        return outcome(dp.descriptor, results)
+    ref = run(False)
+    try:
+        got = run(True)
+        counters['strategies_compared'] += 1
+        dd = diff(ref, got)
+        if dd:
+            viol.append({'kind': 'repeated_step_object', 'mech': 'repeated_step_object/differs',
+                         'msg': 'one %s object at two positions (%s between) gives a different outcome than two equal '
+                         'objects: %s' % (op, middle, dd[:400])})
+    except Exception as e:
+        c = getattr(e, 'cause', e)
+        if isinstance(c, (ValueError, AssertionError)) and 'more than once' in str(c):
+            counters['links_rejected'] += 1     # refused with a clear error naming the reuse: accepted
+        else:
+            viol.append({'kind': 'repeated_step_object', 'mech': 'repeated_step_object/failed',
+                         'msg': 'one %s object at two positions (%s between): the chained run fails with %s: %s although '
+                         'every link is a valid step and the same links evaluated one at a time succeed'
+                         % (op, middle, type(c).__name__, str(c)[:200])})
+    return dict(nontrivial=True, violations=viol, counters=counters,
+                cov={'op_x_position': {}, 'callable_shape': {}, 'strategy': {'repeated_step_object/%s/%s' % (op, middle): 1}},
+                sample={'repeated': op, 'between': middle})
+
+
 def run_case(case):
     if case['family'] == 'alien_optimized':
         return run_alien_optimized(case)
+    if case['family'] == 'repeated_step':
+        return run_repeated_step(case)
     fam = case['family']
     rng = boot.rng(case['seed'], 'C01', case['idx'])
     d = lab.df()
@@ -332,7 +430,7 @@ def run_case(case):
         with boot.quiet():
             if via == 'results':
                 results, dp, _ = d.Flow(*steps).results(on_error=None)
-                return strip_late(dp.descriptor), results
+                return outcome(dp.descriptor, results)
             if via == 'datastream':
                 return materialise(d.Flow(*steps).datastream())
             collected = []
@@ -403,10 +501,19 @@ def run_case(case):
                 mech = 'lazy_vs_stepwise/after_duplicate'
             add('lazy_vs_stepwise', 'lazy != step-by-step: %s' % dd[:600], mech)
         else:
+            if base.late != sw.late:
+                # what a dumper records while the rows pass (count_of_rows / bytes / hash) reaches the steps after it only
+                # when they run on its finished output
+                n_ = next(k for k in sw.late if sw.late.get(k) != base.late.get(k))
+                add('late_descriptor_properties', 'resource %r: step by step the final descriptor carries %r, chained %r'
+                    % (n_, sw.late.get(n_), base.late.get(n_)), 'dumper-late-counters-not-downstream')
             od = observers_diff(envs['L'], envs['S'])
             if od:
+                late_only = observers_diff(envs['L'], envs['S'], ignore_late=True) is None
                 add('observer_content', 'an observer persisted different content in the lazy and the '
-                    'step-by-step run: %s' % od[:600], 'observer_content')
+                    'step-by-step run: %s%s' % (od[:600], ' (only the counters recorded by an earlier dumper differ)'
+                                               if late_only else ''),
+                    'dumper-late-counters-not-downstream' if late_only else 'observer_content')
     except Exception as e:
         c = getattr(e, 'cause', e)
         add('stepwise_failed', 'step-by-step run failed although the lazy run succeeded: %s: %s'
